@@ -3,7 +3,7 @@ use sierradb_cluster::confirmation::PartitionConfirmationState;
 
 fn main() {
     let scen = std::env::args().nth(1).unwrap_or_else(|| "stale".into());
-    let mut bad = None;
+    let mut bad: Option<String> = None;
     match scen.as_str() {
         "stale" => {
             // rf = 3, quorum = 2. version 2 reaches quorum first, then a stale lower count for it arrives,
@@ -27,6 +27,39 @@ fn main() {
             });
             if r.is_err() {
                 bad = Some("update_confirmation panicked on the 256th duplicate report for a pending version (attempts: u8 overflow)".into());
+            }
+        }
+        // bounded native search with the harness's own oracle over the REAL type: every history of <= 4 reports
+        // (version 1..=4, count 0..=rf) for rf in {1, 3}: monotone, never above and always equal to the confirmed prefix
+        "search" => {
+            'o: for rf in [1u8, 3] {
+                let quorum = rf / 2 + 1;
+                let choices: Vec<(u64, u8)> = (1..=4u64).flat_map(|v| (0..=rf).map(move |c| (v, c))).collect();
+                for len in 1..=4u32 {
+                    for code in 0..(choices.len() as u64).pow(len) {
+                        let mut st = PartitionConfirmationState::new(0);
+                        let mut best = [0u8; 5];
+                        let mut c = code;
+                        let mut hist = vec![];
+                        for _ in 0..len {
+                            let (v, cnt) = choices[(c % choices.len() as u64) as usize];
+                            c /= choices.len() as u64;
+                            hist.push((v, cnt));
+                            let before = st.confirmed_watermark.get();
+                            st.update_confirmation(v, cnt, rf);
+                            best[v as usize] = best[v as usize].max(cnt);
+                            let after = st.confirmed_watermark.get();
+                            let mut want = 0;
+                            for k in 1..=4usize {
+                                if best[k] >= quorum { want = k as u64 } else { break }
+                            }
+                            if after < before || after != want {
+                                bad = Some(format!("rf={rf} history {hist:?}: watermark {before} -> {after}, longest quorum-confirmed prefix is {want}"));
+                                break 'o;
+                            }
+                        }
+                    }
+                }
             }
         }
         _ => std::process::exit(2),
